@@ -20,6 +20,14 @@ Theorem C14_row_roundtrip :
 Proof. exact row_roundtrip. Qed.
 Print Assumptions C14_row_roundtrip.
 
+(* a row is never longer than its tokens, its sampled-input text and three more characters: it goes to the file as ONE
+   buffered write followed by flush (the harness observes one raw write() of exactly the row per work package) *)
+Theorem C14_row_length_bound :
+  forall toks etext,
+  String.length (assemble_row toks etext) <= String.length (join_suffix ", " toks) + String.length etext + 3.
+Proof. exact assemble_row_length. Qed.
+Print Assumptions C14_row_length_bound.
+
 (* the input simulated by an iteration (current code, db0b708: the sampled lines start on a new line): for EVERY base
    file, every sampled 'name, value' pair is a line of its own of that input - so the recorded value is the simulated
    one - and the lines of the base file are unchanged *)
